@@ -69,6 +69,20 @@ class TD:
         sf.delays = fmt(self.delays)
         sf.warps = fmt(self.warps)
         sf.offset = self.offset
+        # the simfile's OTHER segment lists (fakes, speeds, scrolls, labels, combos, tick counts, time signatures) say nothing
+        # about when a beat happens or whether it can be hit: half of the simfiles carry some
+        import zlib
+        h = zlib.crc32(repr((self.bpms, self.stops, self.delays, self.warps, self.offset)).encode())
+        if h % 2:
+            first = self.bpms[0][0] if self.bpms else 0
+            spans = [q for q, _ in (self.stops + self.warps + self.bpms)][:3] or [first]
+            sf["FAKES"] = ",".join("%.3f=%s" % (q / Q, "2.000") for q in spans)
+            sf["SPEEDS"] = "0.000=2.000=1.000=0,4.000=0.500=2.000=1"
+            sf["SCROLLS"] = "0.000=0.500,2.000=0.000,6.000=-1.000"
+            sf["LABELS"] = "0.000=Intro,4.000=Warp here"
+            sf["COMBOS"] = "0.000=2=2"
+            sf["TICKCOUNTS"] = "0.000=8"
+            sf["TIMESIGNATURES"] = "0.000=3=4,6.000=7=8"
         tdata = TimingData(sf)
         if not build:
             return None, tdata
